@@ -266,7 +266,7 @@ fn small_leaf(i: usize, seed: u16) -> M {
 pub fn big_doc(kind: u8, size_sel: u8, seed: u16, level: u8) -> M {
     let sizes = if level >= 2 { BIG_SIZES_2 } else { BIG_SIZES_1 };
     let n = sizes[size_sel as usize % sizes.len()];
-    match kind % 8 {
+    match kind % 9 {
         // wide array of mixed small scalars
         0 => M::Arr((0..n).map(|i| small_leaf(i, seed)).collect()),
         // wide object
@@ -288,6 +288,17 @@ pub fn big_doc(kind: u8, size_sel: u8, seed: u16, level: u8) -> M {
         5 => M::Obj([("a".repeat(n), M::Null), ("b".to_string(), M::Str("z".repeat(n))), ("c".to_string(), M::Arr(vec![M::Bool(false)]))].into_iter().collect()),
         // wide array of small containers
         6 => M::Arr((0..n.min(20000)).map(|i| if i % 2 == 0 { M::Arr(vec![small_leaf(i, seed)]) } else { M::Obj([(format!("k{}", i % 5), small_leaf(i, seed))].into_iter().collect()) }).collect()),
+        // many empty containers (each is a header-only nested container)
+        7 => M::Arr(
+            (0..n)
+                .map(|i| match (i + seed as usize) % 4 {
+                    0 => M::Arr(vec![]),
+                    1 => M::Obj(BTreeMap::new()),
+                    2 => M::Obj([("e".to_string(), M::Arr(vec![])), ("o".to_string(), M::Obj(BTreeMap::new()))].into_iter().collect()),
+                    _ => M::Str(String::new()),
+                })
+                .collect(),
+        ),
         // heavy duplication
         _ => M::Arr((0..n).map(|i| small_leaf(i % 3, seed)).collect()),
     }
@@ -330,7 +341,16 @@ pub fn arb_doc(p: TreeParams) -> BoxedStrategy<M> {
         q.big = 0;
         return prop_oneof![
             250 => arb_doc(q),
-            1 => (any::<u8>(), any::<u8>(), any::<u16>()).prop_map(move |(k, s, seed)| big_doc(k, s, seed, level)),
+            1 => (any::<u8>(), any::<u8>(), any::<u16>(), 0u8..6).prop_map(move |(k, s, seed, wrap)| {
+                let big = big_doc(k, s, seed, level);
+                // half of the time the large container sits inside another one, between siblings
+                match wrap {
+                    0 => M::Obj([("a".to_string(), M::Str("before".into())), ("settings".to_string(), big), ("z".to_string(), M::Num(N::U(9)))].into_iter().collect()),
+                    1 => M::Arr(vec![M::Num(N::I(-1)), big, M::Str("after".into())]),
+                    2 => M::Arr(vec![M::Obj([("k".to_string(), big)].into_iter().collect()), M::Null]),
+                    _ => big,
+                }
+            }),
         ]
         .boxed();
     }
@@ -446,7 +466,7 @@ pub fn mutate_once(m: &M, sel: u16, op: u16, arg: u16, repl: &M, kind: MutKind) 
     let n = node_count(&out);
     let idx = pick(sel, n);
     let shrinking: u16 = 6;
-    let breaking: u16 = 7;
+    let breaking: u16 = 8;
     let opn = match kind {
         MutKind::Shrinking => op % shrinking,
         MutKind::Breaking => shrinking + op % breaking,
@@ -538,7 +558,7 @@ pub fn mutate_once(m: &M, sel: u16, op: u16, arg: u16, repl: &M, kind: MutKind) 
                     *v = f64::from_bits(v.to_bits().wrapping_add(1))
                 }
             }
-            M::Str(s) => s.push(if arg % 2 == 0 { '\u{0}' } else { 'a' }),
+            M::Str(s) => s.push(['\u{0}', 'a', ' ', '!', '#', '~', '\u{7f}', 'é', '"', '\\'][arg as usize % 10]),
             M::Bool(b) => *b = !*b,
             M::Null => *node = M::Bool(false),
             M::Arr(a) => a.push(M::Null),
@@ -555,11 +575,24 @@ pub fn mutate_once(m: &M, sel: u16, op: u16, arg: u16, repl: &M, kind: MutKind) 
             M::Num(n) => *node = M::Str(format!("{:?}", n)),
             _ => *node = M::Null,
         },
-        _ => {
+        12 => {
             let inner = node.clone();
             let mut o = BTreeMap::new();
             o.insert(format!("w{}", arg % 3), inner);
             *node = M::Obj(o);
+        }
+        _ => {
+            // rename a key to a case variant of itself (a different key)
+            if let M::Obj(o) = node {
+                if !o.is_empty() {
+                    let k = o.keys().nth(pick(arg, o.len())).unwrap().clone();
+                    let k2 = if arg % 2 == 0 { swap_ascii_case(&k) } else { k.to_uppercase() };
+                    if k2 != k && !o.contains_key(&k2) {
+                        let v = o.remove(&k).unwrap();
+                        o.insert(k2, v);
+                    }
+                }
+            }
         }
     });
     out
@@ -641,8 +674,14 @@ pub fn derive_name(keys: &[String], sel: u16, mode: u16, extra: &str) -> String 
     if keys.is_empty() {
         return extra.to_string();
     }
-    let k = &keys[pick(sel, keys.len())];
-    match mode % 8 {
+    // the last and the first key are favoured: lookups that bisect or scan trip at the ends
+    let k = &keys[match sel % 8 {
+        0 | 1 => keys.len() - 1,
+        2 => 0,
+        3 => keys.len() / 2,
+        _ => pick(sel, keys.len()),
+    }];
+    match mode % 11 {
         0 | 1 | 2 => k.clone(),
         3 => swap_ascii_case(k),
         4 => k.to_ascii_uppercase(),
@@ -652,6 +691,10 @@ pub fn derive_name(keys: &[String], sel: u16, mode: u16, extra: &str) -> String 
             c.into_iter().collect()
         }
         6 => format!("{k}{extra}"),
+        // equal under Unicode case folding but not under ASCII-only folding
+        7 => k.to_lowercase(),
+        8 => k.to_uppercase(),
+        9 => k.chars().map(|c| if c == 'k' { '\u{212a}' } else if c == 's' { '\u{17f}' } else { c }).collect(),
         _ => extra.to_string(),
     }
 }
@@ -661,6 +704,11 @@ pub fn derive_index(len: usize, sel: u16) -> i64 {
     let l = len as i64;
     let span = 2 * l + 5; // -len-2 ..= len+2
     let extremes = [i32::MIN as i64, i32::MIN as i64 + 1, i32::MAX as i64 - 1, i32::MAX as i64];
+    if len > 16 && sel % 4 == 0 {
+        let specials = [l - 1, l - 2, -1, -l, 255, 256, 257, 4095, 4096, 32767, 32768, 65535, 65536, l / 2];
+        let v = specials[(sel as usize / 4) % specials.len()];
+        return v.clamp(-l - 2, l + 2);
+    }
     let n = span as usize + extremes.len();
     let i = pick(sel, n);
     if (i as i64) < span {
@@ -686,7 +734,9 @@ pub fn derive_path(m: &M, steps: &[(u16, u16, u16)], extra: &str) -> Vec<crate::
                     4 | 5 if !a.is_empty() => pick(*sel, a.len()) as i64 - a.len() as i64,
                     6 => derive_index(a.len(), *aux),
                     _ => {
-                        out.push(if aux % 2 == 0 { KP::Name(extra.to_string()) } else { KP::Quoted(format!("{}", sel % 3)) });
+                        let strs: Vec<&String> = a.iter().filter_map(|x| if let M::Str(s) = x { Some(s) } else { None }).collect();
+                        let name = if !strs.is_empty() && sel % 2 == 0 { strs[pick(*aux, strs.len())].clone() } else if aux % 2 == 0 { extra.to_string() } else { format!("{}", sel % 3) };
+                        out.push(if aux % 4 < 2 { KP::Name(name) } else { KP::Quoted(name) });
                         cur = None;
                         continue;
                     }
